@@ -121,6 +121,13 @@ impl Vm {
             if let "quote" | "define-syntax" = proc.as_str() {
                 return Ok(expr.clone());
             }
+            // Only the unquoted parts of a quasiquote template are code
+            if proc.as_str() == "quasiquote" {
+                return Ok(Cell::new_pair(
+                    expr.car().unwrap().clone(),
+                    self.transform_quasiquote(rest, 0, true)?,
+                ));
+            }
         }
 
         if let Some(sym) = self.heap.get_sym_ref(proc) {
@@ -145,6 +152,81 @@ impl Vm {
         } else {
             let rest = self.transform(rest)?;
             Ok(Cell::new_improper_list(v, rest))
+        }
+    }
+
+    /// Transform Quasiquote
+    ///
+    /// Apply pre-compilation transforms to the expressions of a quasiquote
+    /// template that will be evaluated (those unquoted at the outermost
+    /// quasiquote level), leaving the quoted structure, including any list
+    /// that happens to start with a macro keyword, untouched. The depth
+    /// tracking mirrors compile_quasiquote.
+    ///
+    /// # Arguments
+    /// `expr` - The template, or the remainder of a list of a template
+    /// `depth` - The quasiquote depth
+    /// `is_rest` - expr is the remainder of a list: a leading unquote or
+    ///  quasiquote symbol is an element, not the head of a form, unless
+    ///  it is an unquote in tail position, i.e. `(a . ,b)`
+    fn transform_quasiquote(
+        &mut self,
+        expr: &Cell,
+        depth: usize,
+        is_rest: bool,
+    ) -> Result<Cell, Error> {
+        match expr {
+            Cell::Vector(vector) => {
+                let mut v = Vec::with_capacity(vector.len());
+                for it in vector {
+                    v.push(self.transform_quasiquote(it, depth, false)?);
+                }
+                Ok(Cell::Vector(v))
+            }
+            Cell::Pair(_, _) => {
+                let mut depth = depth;
+                let head = expr.car().unwrap();
+                let is_form = !is_rest
+                    || (expr.cdr().unwrap().is_pair() && expr.cdr().unwrap().cdr().unwrap().is_nil());
+                if is_form && head.is_unquote() {
+                    if depth == 0 {
+                        // (unquote expression ...): the operands are code
+                        let mut v = vec![head.clone()];
+                        let mut rest = expr.cdr().unwrap();
+                        while rest.is_pair() {
+                            v.push(self.transform(rest.car().unwrap())?);
+                            rest = rest.cdr().unwrap();
+                        }
+                        return Ok(Cell::new_improper_list(v, rest.clone()));
+                    }
+                    depth -= 1;
+                } else if !is_rest && head.is_quasiquote() {
+                    depth += 1;
+                }
+                let mut v = vec![];
+                let mut rest = expr;
+                let mut first = true;
+                while rest.is_pair() {
+                    // an unquote in tail position: (a . ,b) reads as (a unquote b)
+                    if !first
+                        && depth == 0
+                        && rest.car().unwrap().is_unquote()
+                        && rest.cdr().unwrap().is_pair()
+                        && rest.cdr().unwrap().cdr().unwrap().is_nil()
+                    {
+                        break;
+                    }
+                    v.push(self.transform_quasiquote(rest.car().unwrap(), depth, false)?);
+                    rest = rest.cdr().unwrap();
+                    first = false;
+                }
+                let tail = match rest {
+                    Cell::Pair(_, _) => self.transform_quasiquote(rest, depth, true)?,
+                    other => other.clone(),
+                };
+                Ok(Cell::new_improper_list(v, tail))
+            }
+            other => Ok(other.clone()),
         }
     }
 
